@@ -99,16 +99,26 @@ func (a *FeederActor) stepMarket(e *Env, feeds []feedstypes.Feed) {
 		}
 		if len(ids) > 0 {
 			t := ts.Tunnels[ids[e.Ch.Intn("feeder.price.coord.tunnel", len(ids))]]
-			first := true
-			for _, sd := range t.Signals {
+			// which of the tunnel's signals crosses its hard deviation: any position in the tunnel's signal list
+			var elig []int
+			for i, sd := range t.Signals {
+				lp, has := t.Latest[sd.SignalID]
+				if _, known := a.price[sd.SignalID]; known && has && lp.Price != 0 && lp.Price <= 1<<50 {
+					elig = append(elig, i)
+				}
+			}
+			hardIdx := -1
+			if len(elig) > 0 {
+				hardIdx = elig[e.Ch.Intn("feeder.price.coord.which", len(elig))]
+			}
+			for i, sd := range t.Signals {
 				lp, has := t.Latest[sd.SignalID]
 				if _, known := a.price[sd.SignalID]; !known || !has || lp.Price == 0 || lp.Price > 1<<50 {
 					continue
 				}
 				var bps uint64
-				if first {
+				if i == hardIdx {
 					bps = sd.HardDeviationBPS + uint64(e.Ch.Intn("feeder.price.coord.hard", 2))
-					first = false
 				} else {
 					bps = []uint64{sd.SoftDeviationBPS, sd.SoftDeviationBPS + 1, sd.SoftDeviationBPS - 1, 0}[e.Ch.Intn("feeder.price.coord.soft", 4)]
 				}
